@@ -1314,4 +1314,51 @@ class C18(Prop):
         return impl.startswith("AGREE ok")
 
 
-PROPS = {p.id: p for p in [C06(), C19(), C11(), C16(), C13(), C10(), C15(), C09(), C12(), C14(), C07(), C17(), C05(), C18()]}
+class C04(Prop):
+    id = "C04"
+    gens = ["GenBindings", "GenNames", "GenSyntax", "GenLexer"]
+    header = 2
+    n_quick = 400
+    n_thorough = 12000
+    design_ref = "DESIGN.md §4 C04"
+    assumptions = [
+        "the end-to-end statement (second output == first output, same slot for every resource) is observed on the implementation: the third-party corpus under tests/ (every entry point), every repository source, the C14/C07 programs, generated resource programs and generated programs using every declaration kind; it is not a theorem about the whole compiler",
+        "proved on the models: a path written by the exporter resolves, from where it is read, to the symbol it was written for (model of find_identifier / walk_into_scopes and of is_hidden_from_root); the name map of the emitted program is the identity (C15 model); the printed declarations get the same slots whatever the default group, and for DirectX whatever object kind they are re-spelt as (C06 model); expression texts read back as the same tree (C09); literals read back as the same value (C10)",
+        "the scope model is tied to the implementation only through the fixpoint runs themselves (capture programs are in the corpus); programs the first compilation rejects are skipped (counted)",
+        "slot comparison: group, name and api slot of every binding and the inline constant block; descriptor kind, bindless flag and static sampler state are legitimately not recoverable from the emitted text and are not compared",
+    ]
+
+    def kind(self, case):
+        w = case.split()
+        if w[0] == "G":
+            return "corpus " + w[1]
+        return "R-program" if w[1] == "R" else w[1].split(":")[0]
+
+    def comparable(self, case, impl, model):
+        return False
+
+    def oracle(self, case, impl, model=None):
+        if impl.startswith("FIX") or impl.startswith("SKIP") or impl.startswith("BAD"):
+            return None
+        if impl.startswith("PANIC first"):
+            return None   # a compilation that aborts is C08's business
+        if impl.startswith("REJECT"):
+            return "the emitted text is not accepted: " + impl[7:300]
+        if impl.startswith("DRIFT"):
+            return "the emitted text is not a fixpoint: " + impl[6:400]
+        if impl.startswith("SLOTS"):
+            return "a resource moved to another slot: " + impl[6:400]
+        return "second compilation aborted: " + impl[:300]
+
+    def known_class(self, case, impl, model):
+        if impl.startswith("REJECT") and "failed to parse source" in impl:
+            line = impl.split(" | ", 1)[1] if " | " in impl else ""
+            if re.search(r"<[^;<>]*>\s*\(", line):
+                return "comparison-chain-read-as-template-arguments"
+        return None
+
+    def nontrivial(self, case, impl):
+        return impl.startswith("FIX")
+
+
+PROPS = {p.id: p for p in [C06(), C19(), C11(), C16(), C13(), C10(), C15(), C09(), C12(), C14(), C07(), C17(), C05(), C18(), C04()]}
